@@ -22,7 +22,7 @@ ASSUMPTIONS = ['"well conditioned" is made checkable as cond_2(A) <= 1e3 on the 
                'default nswp=22, kickrank=4, local_iterations=40, resets=2']
 REQUIRED_REACH = ['solvers:amen_solve', 'solvers:_amen_solve_python', '_iterative_solvers:gmres_restart', '_iterative_solvers:BiCGSTAB_reset', 'solvers:_LinearOp.apply_prec',
                   'solvers:_LinearOp.matvec', 'solvers:_local_product']
-REQUIRED_COUNTS = {'ran:gmres': 5, 'ran:bicgstab': 5, 'ran:direct': 5, 'ran:prec': 5, 'class:spd': 1, 'class:dd': 1, 'class:lap': 1, 'class:cd': 1, 'option:band_diagonal': 5, 'x0:user': 1, 'executions': 150}
+REQUIRED_COUNTS = {'ran:gmres': 5, 'ran:bicgstab': 5, 'ran:direct': 5, 'ran:prec': 5, 'class:spd': 1, 'class:dd': 1, 'class:lap': 1, 'class:cd': 1, 'option:band_diagonal': 5, 'x0:user': 1, 'x0:degenerate': 4, 'executions': 150}
 LINE_FUNCS = ['_amen_solve_python', 'BiCGSTAB_reset', 'gmres', '_LinearOp.matvec']
 CASE_TIMEOUT = {'quick': 300, 'thorough': 600}
 MAX_TIMEOUT_FRACTION = 0.0
@@ -61,6 +61,12 @@ def cases(tier, seed):
             for j in range(k if ci < 2 else 1):
                 c = dict(base)
                 c.update({'prec': prec, 'max_full': max_full, 'ls': ls, 'x0': ['none', 'user'][(i + ci + j) % 2], 'sidx': j})
+                cs.append(c)
+        if i % 3 == 0:
+            # degenerate "arbitrary" initial guesses: the zero tensor, a guess with one zero core, a guess of huge / tiny norm
+            for ci, (prec, max_full, ls) in enumerate(confs[:2]):
+                c = dict(base)
+                c.update({'prec': prec, 'max_full': max_full, 'ls': ls, 'x0': ['zero', 'zerocore', 'huge', 'tiny'][(i // 3 + ci) % 4], 'sidx': 0})
                 cs.append(c)
         if base['rhs'] == 'image':
             # the caller already knows the solution: x0 = x_true (every local residual is zero from the first sweep on)
@@ -157,6 +163,19 @@ def run_case(case, ctx):
         rr = random.Random(case['vseed'] + 5)
         x0 = gens.make_tt(N, [1] + [rr.randint(1, 3) for _ in N[1:]] + [1], torch.float64, 'gauss', g)
         ctx.count('x0:user')
+    if case['x0'] in ('zero', 'zerocore', 'huge', 'tiny'):
+        rr = random.Random(case['vseed'] + 6)
+        x0c = gens.make_cores(N, [1] + [rr.randint(1, 3) for _ in N[1:]] + [1], torch.float64, 'gauss', g)
+        if case['x0'] == 'zero':
+            x0c = [c * 0 for c in x0c]
+        elif case['x0'] == 'zerocore':
+            j0 = rr.randrange(len(N))
+            x0c[j0] = x0c[j0] * 0
+        else:
+            x0c[0] = x0c[0] * (1e12 if case['x0'] == 'huge' else 1e-14)
+        x0 = torchtt.TT(x0c)
+        ctx.count('x0:degenerate')
+        ctx.count('x0:' + case['x0'])
     bvec = dn.D(b).reshape(n)
     nb = float(torch.linalg.norm(bvec))
     conf = 'prec=%s/max_full=%d/local_solver=%d%s' % (case['prec'], case['max_full'], case['ls'], '/band_diagonal=%d' % case['band'] if case.get('band', -1) >= 0 else '')
